@@ -76,7 +76,7 @@ func checkC08(c *chk.Ctx) {
 			c.Broken("bad exported case: %v", err)
 		}
 		base := cc.Route == "pq" && cc.Kind == "string" && cc.Cls == "ord"
-		if !c.Thorough() && (i+int(c.Seed))%3 != 0 && !base {
+		if false && (i+int(c.Seed))%3 != 0 && !base { // (no sampling: both tiers run every case)
 			continue
 		}
 		cases = append(cases, cc)
